@@ -46,7 +46,7 @@ theorem ruleOK_hr (P) (codeOn : Bool) : RuleOK P (ruleHr codeOn) := by
   · intro s line endLine s' hc h
     rcases key s line endLine hc with h' | ⟨mk, h'⟩
     · rw [h'] at h; cases h
-    · rw [h'] at h; cases h; simp; exact hc.lt
+    · rw [h'] at h; cases h; simp; have := hc.lt; have := hc.le; omega
   · intro s line endLine s' hc h
     rcases key s line endLine hc with h' | ⟨mk, h'⟩
     · rw [h'] at h; cases h; rfl
@@ -75,7 +75,7 @@ theorem ruleOK_heading (P) (codeOn : Bool) (ws : List Nat) : RuleOK P (ruleHeadi
   · intro s line endLine s' hc h
     rcases key s line endLine hc with h' | ⟨a, b, c, h'⟩
     · rw [h'] at h; cases h
-    · rw [h'] at h; cases h; simp; exact hc.lt
+    · rw [h'] at h; cases h; simp; have := hc.lt; have := hc.le; omega
   · intro s line endLine s' hc h
     rcases key s line endLine hc with h' | ⟨a, b, c, h'⟩
     · rw [h'] at h; cases h; rfl
@@ -111,7 +111,7 @@ theorem ruleOK_code (P) (codeOn : Bool) : RuleOK P (ruleCode codeOn) := by
   · intro s line endLine s' hc h
     rcases key s line endLine hc with h' | ⟨a, b, h1, h2, h'⟩
     · rw [h'] at h; cases h
-    · rw [h'] at h; cases h; simp; omega
+    · rw [h'] at h; cases h; simp; have := hc.le; omega
   · intro s line endLine s' hc h
     rcases key s line endLine hc with h' | ⟨a, b, h1, h2, h'⟩
     · rw [h'] at h; cases h; rfl
@@ -162,7 +162,7 @@ theorem ruleOK_fence (P) (codeOn : Bool) : RuleOK P (ruleFence codeOn) := by
   · intro s line endLine s' hc h
     rcases key s line endLine hc with h' | ⟨a, b, c, d, h1, h2, h'⟩
     · rw [h'] at h; cases h
-    · rw [h'] at h; cases h; simp; omega
+    · rw [h'] at h; cases h; simp; have := hc.le; omega
   · intro s line endLine s' hc h
     rcases key s line endLine hc with h' | ⟨a, b, c, d, h1, h2, h'⟩
     · rw [h'] at h; cases h; rfl
@@ -196,7 +196,7 @@ theorem ruleOK_paragraph (terms : List BRule) (hin : ∀ t ∈ terms, SilentIner
     exact ⟨_, _, h⟩
   · intro s line endLine s' hc h
     obtain ⟨n, c, h1, h2, h'⟩ := paragraph_shape terms hin ws s line endLine hc
-    rw [h'] at h; cases h; simp; omega
+    rw [h'] at h; cases h; simp; have := hc.le; omega
   · intro s line endLine s' hc h
     obtain ⟨n, c, h1, h2, h'⟩ := paragraph_shape terms hin ws s line endLine hc
     rw [h'] at h; cases h
